@@ -457,7 +457,7 @@ class GeneratorEntry(Entry):
             c["nodes"] = []
             cs.append(c)
             c = one(6, "uniform", "random", fam="scalar-sample")
-            c["scalar"], c["us"] = True, [r.random()]
+            c["scalar"], c["us"], c["nodes"] = True, [r.random()], []    # sample() draws exactly one deviate
             cs.append(c)
             c = one(6, "uniform", "random", fam="no-deviates")
             c["us"], c["nodes"] = [], []
